@@ -45,7 +45,10 @@ CLAIM = {
              "behaviour and every snapshot fault, and after any history equals v0 + number of committed turns (kill-switch turns contribute 0); the only "
              "way apply raises is the unguarded snapshot write; snapshot attempted iff turn % max(1,n) == 0; on-apply invalidation empties every configured "
              "namespace and reports exactly the number removed; kill-switch turns make no store call, keep version and snapshot, and emit no t4/apply record."),
-    "note": ("Round 3: the store double now carries the whole surface the apply->snapshot path touches (apply_deltas / export_state / w / import_state, "
+    "note": ("Round 4: histories are driven both with a fresh Orchestrator()/ctx per turn and with ONE long-lived Orchestrator instance and ONE long-lived "
+             "ctx whose config.t4 is edited in place / replaced between turns; every on/off pattern of each per-turn gate (t4.enabled, bust mode, cadence) over "
+             "<= 4 (quick) / <= 6 (thorough) turns is enumerated under those drivers; turnSpec now also carries the cache clause (turnInvalidateB), so a gate "
+             "latched from an earlier turn yields a failing input. Round 3: the store double now carries the whole surface the apply->snapshot path touches (apply_deltas / export_state / w / import_state, "
              "lookup + call + return value, each scriptable to raise or return garbage); C04_store_faults_never_propagate states that NO store fault propagates "
              "(only the snapshot file write itself may raise); this holds of the code with proposed_fixes/C04_store_faults_never_abort_apply.diff (guards the store "
              "export in write_snapshot and the apply_deltas lookup). Component t4apply feeds the REAL t4_filter output into the REAL apply_changes (directly and "
@@ -552,6 +555,13 @@ class ApplyComp(Component):
             yield dict(case, cm=None)
 
 
+# How a history is driven: a new `Orchestrator()` per turn (what `orch.run_turn` does) or ONE long-lived instance;
+# a fresh ctx per turn, or ONE long-lived ctx whose `config.t4` dict is edited in place / whose config (or t4 dict)
+# is replaced between turns.  Every per-turn gate (t4.enabled, cadence, bust mode) must be read afresh each turn.
+ORCH_MODES = ["fresh", "shared"]
+CTX_MODES = ["fresh", "inplace", "replace_cfg", "replace_t4"]
+
+
 class HistComp(Component):
     name = "hist"
     budget = {"quick": 200, "thorough": 3000, "search": 3000}
@@ -580,20 +590,34 @@ class HistComp(Component):
             ver["n"] = rng.choice([0, 1, 5, 41, -2])
         cm = None if rng.random() < 0.1 else [[k, rng.choice([0, 1, 3])] for k in range(len(NS))]
         return {"init": {"ver": ver, "cm": cm, "snap": None, "calls": [], "t4recs": 0, "applyRecs": []},
-                "turns": turns, "real": {"turns": reals, "ver_form": rng.randrange(5), "state": rng.choice(["dict", "attr"])}}
+                "turns": turns, "real": {"turns": reals, "ver_form": rng.randrange(5), "state": rng.choice(["dict", "attr"]),
+                                         "drv": {"orch": rng.choice(ORCH_MODES), "ctx": rng.choice(CTX_MODES)}}}
 
     def corpus(self, ctx: Ctx) -> List[dict]:
+        """Corpus + small-scope enumeration: EVERY on/off pattern of each per-turn gate (kill switch, cache-bust
+        mode, snapshot cadence) over <= 4 turns (quick) / <= 6 turns (thorough), each driven with one long-lived
+        Orchestrator + ctx edited in place, and (thorough) with every other driver combination."""
         cases = list(ctx.load_corpus(self.name))
-        if ctx.tier != "quick":
-            # every kill-switch pattern over ≤ 6 turns
-            for n in range(1, 7):
+        quick = ctx.tier == "quick"
+        nmax = 4 if quick else 6
+        drivers = [("shared", "inplace"), ("shared", "fresh")] if quick else [(o, c) for o in ORCH_MODES for c in CTX_MODES]
+        for gate in ("enabled", "bust", "every"):
+            for n in range(1, nmax + 1):
                 for pat in itertools.product([True, False], repeat=n):
-                    turns = [{"enabled": en, "store": "fn", "turn": k, "every": 2, "bust": True, "namespaces": None, "cmFault": None,
-                              "deltas": [k % 3, (k + 1) % 3], "script": [["raise"], ["ret", 1, 0]] if k % 2 else [["ret", 2, 0]]}
-                             for k, en in enumerate(pat)]
-                    cases.append({"init": {"ver": {"k": "num", "n": 10}, "cm": [[k, 1] for k in range(len(NS))], "snap": None,
-                                           "calls": [], "t4recs": 0, "applyRecs": []},
-                                  "turns": turns, "real": {"turns": [{"mode": "on-apply"} for _ in pat], "state": "dict"}})
+                    if gate != "enabled" and (n < 2 or len(set(pat)) < 2):
+                        continue
+                    for (om, cmode) in (drivers if gate == "enabled" else drivers[:1]):
+                        turns, reals = [], []
+                        for k, bit in enumerate(pat):
+                            turns.append({"enabled": bit if gate == "enabled" else True, "store": "fn", "turn": k,
+                                          "every": (1 if bit else 1000) if gate == "every" else 2,
+                                          "bust": bit if gate == "bust" else True, "namespaces": None, "cmFault": None,
+                                          "deltas": [k % 3, (k + 1) % 3],
+                                          "script": [["raise"], ["ret", 1, 0]] if k % 2 else [["ret", 2, 0]]})
+                            reals.append({"mode": "on-apply" if turns[-1]["bust"] else "none"})
+                        cases.append({"init": {"ver": {"k": "num", "n": 10}, "cm": [[k, 1] for k in range(len(NS))], "snap": None,
+                                               "calls": [], "t4recs": 0, "applyRecs": []},
+                                      "turns": turns, "real": {"turns": reals, "state": "dict", "drv": {"orch": om, "ctx": cmode}}})
         return cases
 
     def request(self, case: dict) -> dict:
@@ -653,6 +677,11 @@ class HistComp(Component):
         crash = None
         ver_desc = dict(init["ver"])
         prev_v = vval
+        drv = real.get("drv") or {}
+        shared_orch = core.Orchestrator() if drv.get("orch") == "shared" else None
+        live_t4: dict = {}
+        live_cfg = SimpleNamespace(t4=live_t4, t3={"enabled": False})
+        live_ctx = SimpleNamespace(agent_id="A", config=live_cfg)
         try:
             for k, t in enumerate(case["turns"]):
                 rl = (real.get("turns") or [{}] * len(case["turns"]))[k]
@@ -670,10 +699,25 @@ class HistComp(Component):
                     t4cfg["enabled"] = False if ef != 1 else 0
                 if cm is None:
                     t4cfg.setdefault("cache", {})["enabled"] = False
-                ctx = SimpleNamespace(agent_id="A", turn_id=_turn_val(t["turn"], rl.get("turn_form", 0)),
-                                      config=SimpleNamespace(t4=t4cfg, t3={"enabled": False}))
+                cmode = drv.get("ctx", "fresh")
+                if cmode == "fresh":
+                    ctx = SimpleNamespace(agent_id="A", turn_id=_turn_val(t["turn"], rl.get("turn_form", 0)),
+                                          config=SimpleNamespace(t4=t4cfg, t3={"enabled": False}))
+                else:
+                    ctx = live_ctx
+                    ctx.turn_id = _turn_val(t["turn"], rl.get("turn_form", 0))
+                    if cmode == "inplace":      # same ctx, same config object, same t4 dict: keys edited in place
+                        live_t4.clear()
+                        live_t4.update(t4cfg)
+                    elif cmode == "replace_t4":  # same ctx and config object, new t4 dict
+                        live_cfg.t4 = t4cfg
+                    else:                        # same ctx, new config object
+                        ctx.config = SimpleNamespace(t4=t4cfg, t3={"enabled": False})
                 try:
-                    orch.run_turn(ctx, state, f"input text {k}")
+                    if shared_orch is not None:
+                        shared_orch.run_turn(ctx, state, f"input text {k}")
+                    else:
+                        orch.run_turn(ctx, state, f"input text {k}")
                 except Exception as e:
                     crash = f"turn {k}: {type(e).__name__}: {e}"[:300]
                     break
@@ -770,6 +814,11 @@ class HistComp(Component):
             t.add("fallback")
         if len(case["turns"]) >= 8:
             t.add("long")
+        drv = (case.get("real") or {}).get("drv") or {}
+        if drv.get("orch") == "shared":
+            t.add("one_orchestrator_instance")
+        if drv.get("ctx", "fresh") != "fresh":
+            t.add("long_lived_ctx:" + drv["ctx"])
         return sorted(t) or ["default"]
 
     def shrink(self, case):
@@ -830,7 +879,8 @@ class T4ApplyComp(Component):
             turns.append({"deltas": ds, "churn": rng.choice([1, 2, 3, 3, 5, 64]), "l2_milli": rng.choice([10 ** 9, 10 ** 9, 1500, 200]),
                           "nov_milli": rng.choice([10 ** 9, 10 ** 9, 300]),
                           "script": [first] + [rng.choice([["ret", 1, 0], ["raise"]]) for _ in range(rng.randrange(0, 4))]})
-        return {"mode": rng.choice(["direct", "run_turn"]), "turns": turns, "state": rng.choice(["dict", "attr"])}
+        return {"mode": rng.choice(["direct", "run_turn"]), "turns": turns, "state": rng.choice(["dict", "attr"]),
+                "orch": rng.choice(ORCH_MODES)}
 
     def request(self, case: dict) -> dict:
         return {"c": "const", "v": True}
@@ -857,6 +907,7 @@ class T4ApplyComp(Component):
 
         saved = {name: getattr(orch, name, None) for name in ("append_jsonl", "t1_propagate", "t2_semantic", "t4_filter")}
         saved_core = core.t4_filter
+        shared_orch = core.Orchestrator() if case.get("orch") == "shared" else None
         try:
             if case["mode"] == "run_turn":
                 orch.append_jsonl = lambda name, payload: logs.append(name)
@@ -881,7 +932,10 @@ class T4ApplyComp(Component):
                 crash = None
                 try:
                     if case["mode"] == "run_turn":
-                        orch.run_turn(ctx, state, f"text {k}")
+                        if shared_orch is not None:
+                            shared_orch.run_turn(ctx, state, f"text {k}")
+                        else:
+                            orch.run_turn(ctx, state, f"text {k}")
                         t4res = seen.get("t4")
                     else:
                         t4res = real_t4(ctx, state, None, None, plan, None)
